@@ -828,6 +828,8 @@ impl TransactionalMemory {
     }
 
     pub(crate) fn allocator_state_loaded(&self) -> bool {
+        #[cfg(redb_verif)]
+        crate::verif::pause("M.alloc_loaded");
         self.state.lock().unwrap().allocators.is_some()
     }
 
@@ -1063,6 +1065,8 @@ impl TransactionalMemory {
         self.debug_assert_no_dirty_pages();
         self.storage.check_io_errors()?;
 
+        #[cfg(redb_verif)]
+        crate::verif::pause("M.commit.begin");
         let mut state = self.state.lock().unwrap();
         // Trim surplus file space, before finalizing the commit
         let shrunk = if !matches!(shrink_policy, ShrinkPolicy::Never) {
@@ -1084,20 +1088,28 @@ impl TransactionalMemory {
         let old_transaction_id = header.secondary_slot().transaction_id;
         header.write_secondary_slot(transaction_id, data_root, system_root);
 
+        #[cfg(redb_verif)]
+        crate::verif::pause("X.commit.header1");
         self.write_header(&header)?;
 
         // Use 2-phase commit, if checksums are disabled
+        #[cfg(redb_verif)]
+        crate::verif::pause("X.commit.flush2pc");
         if two_phase {
             self.storage.flush()?;
         }
 
         // Make our new commit the primary, and record whether it was a 2-phase commit.
         // These two bits need to be written atomically
+        #[cfg(redb_verif)]
+        crate::verif::pause("X.commit.swap");
         header.swap_primary_slot();
         header.two_phase_commit = two_phase;
 
         // Write the new header to disk
         self.write_header(&header)?;
+        #[cfg(redb_verif)]
+        crate::verif::pause("X.commit.flush");
         self.storage.flush()?;
 
         if shrunk {
@@ -1105,8 +1117,12 @@ impl TransactionalMemory {
         }
         // Everything this stood in for is now durable: durable_commit() flushed the allocation
         // records to DATA_ALLOCATED_TABLE before reaching here.
+        #[cfg(redb_verif)]
+        crate::verif::pause("U.clear");
         self.unpersisted.lock().unwrap().clear();
 
+        #[cfg(redb_verif)]
+        crate::verif::pause("M.commit.publish");
         let mut state = self.state.lock().unwrap();
         assert_eq!(
             state.header.secondary_slot().transaction_id,
@@ -1135,9 +1151,13 @@ impl TransactionalMemory {
         self.debug_assert_no_dirty_pages();
         self.storage.check_io_errors()?;
 
+        #[cfg(redb_verif)]
+        crate::verif::pause("U.extend");
         self.unpersisted.lock().unwrap().extend(newly_unpersisted);
         self.storage.write_barrier();
 
+        #[cfg(redb_verif)]
+        crate::verif::pause("M.nd.publish");
         let mut state = self.state.lock().unwrap();
         state
             .header
@@ -1221,16 +1241,22 @@ impl TransactionalMemory {
     }
 
     pub(crate) fn get_version(&self) -> u8 {
+        #[cfg(redb_verif)]
+        crate::verif::pause("M.get_version");
         let state = self.state.lock().unwrap();
         state.latest_slot().version
     }
 
     pub(crate) fn get_data_root(&self) -> Option<BtreeHeader> {
+        #[cfg(redb_verif)]
+        crate::verif::pause("M.get_data_root");
         let state = self.state.lock().unwrap();
         state.latest_slot().user_root
     }
 
     pub(crate) fn get_system_root(&self) -> Option<BtreeHeader> {
+        #[cfg(redb_verif)]
+        crate::verif::pause("M.get_system_root");
         let state = self.state.lock().unwrap();
         state.latest_slot().system_root
     }
@@ -1241,6 +1267,8 @@ impl TransactionalMemory {
     }
 
     pub(crate) fn get_last_durable_transaction_id(&self) -> Result<TransactionId> {
+        #[cfg(redb_verif)]
+        crate::verif::pause("M.last_durable");
         let state = self.state.lock()?;
         Ok(state.header.primary_slot().transaction_id)
     }
